@@ -4,6 +4,9 @@
 import Gama.Model.Neu
 import Mathlib.Analysis.SpecialFunctions.Trigonometric.Basic
 import Mathlib.Analysis.SpecialFunctions.Sqrt
+import Mathlib.Analysis.Calculus.Deriv.Add
+import Mathlib.Analysis.Calculus.Deriv.Mul
+import Mathlib.Analysis.Calculus.Deriv.Pow
 import Mathlib.LinearAlgebra.Matrix.Determinant.Basic
 import Mathlib.LinearAlgebra.Matrix.Notation
 import Mathlib.Tactic.Ring
@@ -79,6 +82,179 @@ theorem frame_det (b l : ℝ) : (frame b l).toMatrix.det = -1 := by
   rw [frame_eq, Rot.toMatrix, Matrix.det_fin_three]
   simp
   linear_combination (-((Real.sin b) ^ 2 + (Real.cos b) ^ 2)) * hl - hb
+
+end Neu
+end Gama
+
+namespace Gama
+namespace Neu
+
+/-! ### the linearisation over ℝ -/
+
+/-- the NEU displacement the unknowns `x` (by index) describe for a point; components that are
+    not adjusted do not move -/
+def dispN (p : Pt ℝ) (x : ℕ → ℝ) : ℝ := if p.freeH then x p.iN else 0
+def dispE (p : Pt ℝ) (x : ℕ → ℝ) : ℝ := if p.freeH then x p.iE else 0
+def dispU (p : Pt ℝ) (x : ℕ → ℝ) : ℝ := if p.freeU then x p.iU else 0
+
+/-- XYZ displacement of a point: `R · (n, e, u)` (`Point::x_transform` …, used by `Point::write_xml`
+    to turn the adjusted n, e, u into the corrections of X, Y, Z) -/
+noncomputable def dispXYZ (p : Pt ℝ) (x : ℕ → ℝ) : ℝ × ℝ × ℝ :=
+  (@Rot.xTransform ℝ realScalar p.R (dispN p x) (dispE p x) (dispU p x),
+   @Rot.yTransform ℝ realScalar p.R (dispN p x) (dispE p x) (dispU p x),
+   @Rot.zTransform ℝ realScalar p.R (dispN p x) (dispE p x) (dispU p x))
+
+theorem pointTriple_dot (p : Pt ℝ) (dX dY dZ : ℝ) (x : ℕ → ℝ) :
+    @rowDot ℝ realScalar (@pointTriple ℝ realScalar p dX dY dZ) x =
+      dX * (dispXYZ p x).1 + dY * (dispXYZ p x).2.1 + dZ * (dispXYZ p x).2.2 := by
+  unfold pointTriple rowDot dispXYZ dispN dispE dispU Rot.xTransform Rot.yTransform Rot.zTransform
+    Rot.diffN Rot.diffE Rot.diffU
+  cases p.freeH <;> cases p.freeU <;> simp <;> ring
+
+theorem rowDot_append (r s : Row ℝ) (x : ℕ → ℝ) :
+    @rowDot ℝ realScalar (r ++ s) x = @rowDot ℝ realScalar r x + @rowDot ℝ realScalar s x := by
+  unfold rowDot
+  induction r with
+  | nil => simp
+  | cons a r ih => simp [List.foldr_cons, ih]; ring
+
+/-- the three rows of a vector observation, applied tgt the unknowns, are the XYZ displacement
+    of `to` minus that of `from` -/
+theorem linVector_rows (frm tgt : Pt ℝ) (dx dy dz fdh tdh tol : ℝ) (x : ℕ → ℝ) :
+    (@linVector ℝ realScalar frm tgt dx dy dz fdh tdh tol).rows.map (fun r => @rowDot ℝ realScalar r x) =
+      [ (dispXYZ tgt x).1 - (dispXYZ frm x).1,
+        (dispXYZ tgt x).2.1 - (dispXYZ frm x).2.1,
+        (dispXYZ tgt x).2.2 - (dispXYZ frm x).2.2 ] := by
+  simp only [linVector, unitXYZ, List.map_cons, List.map_nil, rowDot_append, pointTriple_dot]
+  simp
+  refine ⟨by ring, by ring, by ring⟩
+
+theorem linXYZ_rows (p : Pt ℝ) (a b c tol : ℝ) (x : ℕ → ℝ) :
+    (@linXYZ ℝ realScalar p a b c tol).rows.map (fun r => @rowDot ℝ realScalar r x) =
+      [ (dispXYZ p x).1, (dispXYZ p x).2.1, (dispXYZ p x).2.2 ] := by
+  simp only [linXYZ, unitXYZ, List.map_cons, List.map_nil, pointTriple_dot]
+  simp
+
+theorem sqrt_real (x : ℝ) : @Scalar.sqrt ℝ realScalar x = Real.sqrt x := rfl
+
+theorem linScale_real : @linScale ℝ realScalar = 1000 := by
+  show ((1000 : ℕ) : ℝ) = 1000
+  norm_num
+
+theorem dispXYZ_scale (p : Pt ℝ) (k : ℝ) (ξ : ℕ → ℝ) :
+    dispXYZ p (fun i => k * ξ i) = (k * (dispXYZ p ξ).1, k * (dispXYZ p ξ).2.1, k * (dispXYZ p ξ).2.2) := by
+  unfold dispXYZ dispN dispE dispU Rot.xTransform Rot.yTransform Rot.zTransform
+  cases p.freeH <;> cases p.freeU <;> simp <;> refine ⟨by ring, by ring, by ring⟩
+
+/-- one Gauss–Newton step is exact for vectors: if the observed vector is the difference of the
+    points displaced by `ξ` (metres, in their own n-e-u frames), the right-hand side (millimetres)
+    is the design rows applied to `1000 ξ` — so `x = 1000 ξ` solves the equations with zero residual -/
+theorem linVector_one_step (frm tgt : Pt ℝ) (dx dy dz fdh tdh tol : ℝ) (ξ : ℕ → ℝ)
+    (hx : dx = (@Pt.Xdh ℝ realScalar tgt tdh + (dispXYZ tgt ξ).1) - (@Pt.Xdh ℝ realScalar frm fdh + (dispXYZ frm ξ).1))
+    (hy : dy = (@Pt.Ydh ℝ realScalar tgt tdh + (dispXYZ tgt ξ).2.1) - (@Pt.Ydh ℝ realScalar frm fdh + (dispXYZ frm ξ).2.1))
+    (hz : dz = (@Pt.Zdh ℝ realScalar tgt tdh + (dispXYZ tgt ξ).2.2) - (@Pt.Zdh ℝ realScalar frm fdh + (dispXYZ frm ξ).2.2)) :
+    (@linVector ℝ realScalar frm tgt dx dy dz fdh tdh tol).rhs =
+      (@linVector ℝ realScalar frm tgt dx dy dz fdh tdh tol).rows.map
+        (fun r => @rowDot ℝ realScalar r (fun i => 1000 * ξ i)) := by
+  rw [linVector_rows, dispXYZ_scale, dispXYZ_scale]
+  subst hx hy hz
+  simp [linVector, linScale_real]
+  refine ⟨by ring, by ring, by ring⟩
+
+theorem linXYZ_one_step (p : Pt ℝ) (a b c tol : ℝ) (ξ : ℕ → ℝ)
+    (hx : a = p.X + (dispXYZ p ξ).1) (hy : b = p.Y + (dispXYZ p ξ).2.1) (hz : c = p.Z + (dispXYZ p ξ).2.2) :
+    (@linXYZ ℝ realScalar p a b c tol).rhs =
+      (@linXYZ ℝ realScalar p a b c tol).rows.map (fun r => @rowDot ℝ realScalar r (fun i => 1000 * ξ i)) := by
+  rw [linXYZ_rows, dispXYZ_scale]
+  subst hx hy hz
+  simp [linXYZ, linScale_real]
+  refine ⟨by ring, by ring, by ring⟩
+
+/-- spatial distance between the `dh`-shifted points (what `linDistance` compares the observation with) -/
+noncomputable def dist3 (frm tgt : Pt ℝ) (fdh tdh : ℝ) : ℝ :=
+  Real.sqrt ((@Pt.Xdh ℝ realScalar tgt tdh - @Pt.Xdh ℝ realScalar frm fdh) ^ 2 +
+             (@Pt.Ydh ℝ realScalar tgt tdh - @Pt.Ydh ℝ realScalar frm fdh) ^ 2 +
+             (@Pt.Zdh ℝ realScalar tgt tdh - @Pt.Zdh ℝ realScalar frm fdh) ^ 2)
+
+theorem linDistance_rhs (frm tgt : Pt ℝ) (obs fdh tdh tol : ℝ) :
+    (@linDistance ℝ realScalar frm tgt obs fdh tdh tol).rhs = [(obs - dist3 frm tgt fdh tdh) * 1000] := by
+  simp [linDistance, dist3, linScale_real, sq, Pt.Xdh, Pt.Ydh, Pt.Zdh, sqrt_real]
+
+/-- distance between the points moved by `t·ξ` (no instrument / target heights) -/
+noncomputable def distAlong (frm tgt : Pt ℝ) (ξ : ℕ → ℝ) (t : ℝ) : ℝ :=
+  Real.sqrt (((tgt.X + t * (dispXYZ tgt ξ).1) - (frm.X + t * (dispXYZ frm ξ).1)) ^ 2 +
+             ((tgt.Y + t * (dispXYZ tgt ξ).2.1) - (frm.Y + t * (dispXYZ frm ξ).2.1)) ^ 2 +
+             ((tgt.Z + t * (dispXYZ tgt ξ).2.2) - (frm.Z + t * (dispXYZ frm ξ).2.2)) ^ 2)
+
+/-- the row `linDistance` produces -/
+noncomputable def distRow (frm tgt : Pt ℝ) : Row ℝ :=
+  let D := Real.sqrt ((tgt.X - frm.X) * (tgt.X - frm.X) + (tgt.Y - frm.Y) * (tgt.Y - frm.Y) +
+    (tgt.Z - frm.Z) * (tgt.Z - frm.Z))
+  @pointTriple ℝ realScalar frm (-((tgt.X - frm.X) / D)) (-((tgt.Y - frm.Y) / D)) (-((tgt.Z - frm.Z) / D)) ++
+  @pointTriple ℝ realScalar tgt ((tgt.X - frm.X) / D) ((tgt.Y - frm.Y) / D) ((tgt.Z - frm.Z) / D)
+
+theorem linDistance_rows (frm tgt : Pt ℝ) (obs fdh tdh tol : ℝ)
+    (hne : (tgt.X - frm.X) ^ 2 + (tgt.Y - frm.Y) ^ 2 + (tgt.Z - frm.Z) ^ 2 ≠ 0) :
+    (@linDistance ℝ realScalar frm tgt obs fdh tdh tol).rows = [distRow frm tgt] := by
+  have hq : 0 < (tgt.X - frm.X) * (tgt.X - frm.X) + (tgt.Y - frm.Y) * (tgt.Y - frm.Y) +
+      (tgt.Z - frm.Z) * (tgt.Z - frm.Z) := by
+    have : 0 ≤ (tgt.X - frm.X) ^ 2 + (tgt.Y - frm.Y) ^ 2 + (tgt.Z - frm.Z) ^ 2 := by positivity
+    have h2 := lt_of_le_of_ne this (Ne.symm hne)
+    nlinarith [h2]
+  have hD0 : Real.sqrt ((tgt.X - frm.X) * (tgt.X - frm.X) + (tgt.Y - frm.Y) * (tgt.Y - frm.Y) +
+      (tgt.Z - frm.Z) * (tgt.Z - frm.Z)) ≠ 0 := ne_of_gt (Real.sqrt_pos.mpr hq)
+  have hb : (@Scalar.beq ℝ realScalar (@Scalar.sqrt ℝ realScalar
+      ((tgt.X - frm.X) * (tgt.X - frm.X) + (tgt.Y - frm.Y) * (tgt.Y - frm.Y) + (tgt.Z - frm.Z) * (tgt.Z - frm.Z))) 0) = false := by
+    show @decide _ (Classical.propDecidable _) = false
+    simp [hD0, sqrt_real]
+  simp only [linDistance, hb]
+  rfl
+
+/-- the distance row is the gradient of the spatial distance in the n-e-u unknowns:
+    directional derivative along any displacement `ξ` -/
+theorem distRow_hasDerivAt (frm tgt : Pt ℝ) (ξ : ℕ → ℝ)
+    (hne : (tgt.X - frm.X) ^ 2 + (tgt.Y - frm.Y) ^ 2 + (tgt.Z - frm.Z) ^ 2 ≠ 0) :
+    HasDerivAt (distAlong frm tgt ξ) (@rowDot ℝ realScalar (distRow frm tgt) ξ) 0 := by
+  have hq : 0 < (tgt.X - frm.X) ^ 2 + (tgt.Y - frm.Y) ^ 2 + (tgt.Z - frm.Z) ^ 2 :=
+    lt_of_le_of_ne (by positivity) (Ne.symm hne)
+  have hsq : (tgt.X - frm.X) * (tgt.X - frm.X) + (tgt.Y - frm.Y) * (tgt.Y - frm.Y) +
+      (tgt.Z - frm.Z) * (tgt.Z - frm.Z) = (tgt.X - frm.X) ^ 2 + (tgt.Y - frm.Y) ^ 2 + (tgt.Z - frm.Z) ^ 2 := by ring
+  have hD0 : Real.sqrt ((tgt.X - frm.X) ^ 2 + (tgt.Y - frm.Y) ^ 2 + (tgt.Z - frm.Z) ^ 2) ≠ 0 :=
+    ne_of_gt (Real.sqrt_pos.mpr hq)
+  have hin : HasDerivAt (fun t : ℝ =>
+      ((tgt.X + t * (dispXYZ tgt ξ).1) - (frm.X + t * (dispXYZ frm ξ).1)) ^ 2 +
+      ((tgt.Y + t * (dispXYZ tgt ξ).2.1) - (frm.Y + t * (dispXYZ frm ξ).2.1)) ^ 2 +
+      ((tgt.Z + t * (dispXYZ tgt ξ).2.2) - (frm.Z + t * (dispXYZ frm ξ).2.2)) ^ 2)
+      (2 * ((tgt.X - frm.X) * ((dispXYZ tgt ξ).1 - (dispXYZ frm ξ).1) +
+            (tgt.Y - frm.Y) * ((dispXYZ tgt ξ).2.1 - (dispXYZ frm ξ).2.1) +
+            (tgt.Z - frm.Z) * ((dispXYZ tgt ξ).2.2 - (dispXYZ frm ξ).2.2))) 0 := by
+    have h1 : ∀ (a b u v : ℝ), HasDerivAt (fun t : ℝ => ((a + t * u) - (b + t * v)) ^ 2)
+        (2 * (a - b) * (u - v)) 0 := by
+      intro a b u v
+      have hlin : HasDerivAt (fun t : ℝ => (a + t * u) - (b + t * v)) (u - v) 0 := by
+        have h := HasDerivAt.fun_sub
+          (HasDerivAt.const_add a (HasDerivAt.mul_const (hasDerivAt_id' (0:ℝ)) u))
+          (HasDerivAt.const_add b (HasDerivAt.mul_const (hasDerivAt_id' (0:ℝ)) v))
+        simpa using h
+      have h2 := HasDerivAt.fun_pow hlin 2
+      simpa using h2
+    have h3 := HasDerivAt.fun_add (HasDerivAt.fun_add (h1 tgt.X frm.X (dispXYZ tgt ξ).1 (dispXYZ frm ξ).1)
+      (h1 tgt.Y frm.Y (dispXYZ tgt ξ).2.1 (dispXYZ frm ξ).2.1))
+      (h1 tgt.Z frm.Z (dispXYZ tgt ξ).2.2 (dispXYZ frm ξ).2.2)
+    have e : (2 * ((tgt.X - frm.X) * ((dispXYZ tgt ξ).1 - (dispXYZ frm ξ).1) +
+            (tgt.Y - frm.Y) * ((dispXYZ tgt ξ).2.1 - (dispXYZ frm ξ).2.1) +
+            (tgt.Z - frm.Z) * ((dispXYZ tgt ξ).2.2 - (dispXYZ frm ξ).2.2))) =
+        2 * (tgt.X - frm.X) * ((dispXYZ tgt ξ).1 - (dispXYZ frm ξ).1) +
+          2 * (tgt.Y - frm.Y) * ((dispXYZ tgt ξ).2.1 - (dispXYZ frm ξ).2.1) +
+          2 * (tgt.Z - frm.Z) * ((dispXYZ tgt ξ).2.2 - (dispXYZ frm ξ).2.2) := by ring
+    rw [e]
+    exact h3
+  have hs := hin.sqrt (by simpa using hne)
+  unfold distAlong
+  convert hs using 1
+  simp only [distRow, rowDot_append, pointTriple_dot, mul_zero, zero_mul, add_zero, hsq]
+  field_simp
+  ring
 
 end Neu
 end Gama
